@@ -3,8 +3,8 @@
 P=$1; PATCH=$2; TIER=${3:-quick}
 cd /verif
 git -C /repo diff --quiet || { echo "/repo not clean"; exit 2; }
-git -C /repo apply $PATCH 2>/dev/null || (cd /repo && patch -p1 -F3 --no-backup-if-mismatch < $PATCH >/dev/null && find . -name "*.orig" -delete) || { echo "patch does not apply to /repo"; exit 2; }
+git -C /repo apply $PATCH 2>/dev/null || (cd /repo && patch -p1 -F3 --no-backup-if-mismatch < $PATCH >/dev/null && find . -name "*.orig" -delete) || { echo "patch does not apply to /repo"; git -C /repo checkout -- .; find /repo -name "*.rej" -o -name "*.orig" | xargs -r rm -f; exit 2; }
 ./check $P --tier $TIER 2>&1 | grep -v "^\[check\] go2v" | tail -12
-git -C /repo checkout -- .
+git -C /repo checkout -- .; find /repo -name "*.rej" -o -name "*.orig" | xargs -r rm -f
 git -C /repo status --short | head -3
 # restore evidence from a clean run later
